@@ -460,6 +460,7 @@ fn separate_lists(bs: &mut Vec<Blk>) {
         }
         match &mut bs[i] {
             Blk::Html(_) => {}
+            Blk::List { items, .. } if items.iter().all(|it| it.is_empty()) => {}
             Blk::List { ordered, .. } => {
                 let o = *ordered;
                 if last == Some(o) {
